@@ -100,6 +100,31 @@ def brace_tokens(source, node) -> TokenRange:
     return first_token, end_token
 
 
+def token_range_with_parens(
+    source: SourceFile, node: ast.AST, brace_tokens: TokenRange
+) -> TokenRange:
+    """Returns the tokens of a element of a list/dict/call, including the
+    parentheses which can surround the expression like in `[(1+2j), ("a")]`
+    and are not part of the tokens of the node."""
+    atok = source.asttokens()
+    first_token, *_ = atok.get_tokens(node)
+    *_, last_token = atok.get_tokens(node)
+    left_brace, right_brace = brace_tokens
+
+    while True:
+        prev_token = atok.prev_token(first_token)
+        next_token = atok.next_token(last_token)
+        if (
+            prev_token.string == "("
+            and next_token.string == ")"
+            and prev_token.index > left_brace.index
+            and next_token.index < right_brace.index
+        ):
+            first_token, last_token = prev_token, next_token
+        else:
+            return first_token, last_token
+
+
 def generic_sequence_update(
     source: SourceFile,
     parent: Union[ast.List, ast.Tuple, ast.Dict, ast.Call],
@@ -197,14 +222,15 @@ def apply_all(all_changes: List[Change], recorder: ChangeRecorder):
                 if isinstance(change, ListInsert)
             }
 
+            braces = brace_tokens(source, parent)
+
             def list_token_range(entry):
-                r = list(source.asttokens().get_tokens(entry))
-                return r[0], r[-1]
+                return token_range_with_parens(source, entry, braces)
 
             generic_sequence_update(
                 source,
                 parent,
-                brace_tokens(source, parent),
+                braces,
                 [None if e in to_delete else list_token_range(e) for e in parent.elts],
                 to_insert,
                 recorder,
@@ -216,16 +242,18 @@ def apply_all(all_changes: List[Change], recorder: ChangeRecorder):
             }
             atok = source.asttokens()
 
-            def arg_token_range(node):
-                if isinstance(node.parent, ast.keyword):
-                    node = node.parent
-                r = list(atok.get_tokens(node))
-                return r[0], r[-1]
-
             braces_left = atok.next_token(list(atok.get_tokens(parent.func))[-1])
             assert braces_left.string == "("
             braces_right = list(atok.get_tokens(parent))[-1]
             assert braces_right.string == ")"
+
+            def arg_token_range(node):
+                first_token, last_token = token_range_with_parens(
+                    source, node, (braces_left, braces_right)
+                )
+                if isinstance(node.parent, ast.keyword):
+                    first_token = list(atok.get_tokens(node.parent))[0]
+                return first_token, last_token
 
             to_insert = DefaultDict(list)
 
@@ -266,16 +294,18 @@ def apply_all(all_changes: List[Change], recorder: ChangeRecorder):
                 if isinstance(change, DictInsert)
             }
 
+            braces = brace_tokens(source, parent)
+
             def dict_token_range(key, value):
                 return (
-                    list(source.asttokens().get_tokens(key))[0],
-                    list(source.asttokens().get_tokens(value))[-1],
+                    token_range_with_parens(source, key, braces)[0],
+                    token_range_with_parens(source, value, braces)[1],
                 )
 
             generic_sequence_update(
                 source,
                 parent,
-                brace_tokens(source, parent),
+                braces,
                 [
                     None if value in to_delete else dict_token_range(key, value)
                     for key, value in zip(parent.keys, parent.values)
